@@ -357,6 +357,12 @@ func runC17(res *Result, tier string, seed int64, replay string) {
 			safely(func() { _, e2 = mjml.Render("\n\n\n"+src, mjml.WithCache()) })
 			d1, _ := detailsOf(e1)
 			d2, _ := detailsOf(e2)
+			// … and once more (a cache hit): the same report as the first time
+			var e3 error
+			safely(func() { _, e3 = mjml.Render(src, mjml.WithCache()) })
+			if d3, _ := detailsOf(e3); fmt.Sprint(d3) != fmt.Sprint(d1) {
+				res.Violate(Violation{Sig: "cached-compilation-reports-differently", Kind: "input", What: fmt.Sprintf("the same document compiled through the cache a second time reports %v, the first time %v", d3, d1), Input: map[string]string{"source": src}})
+			}
 			okc := len(d1) == len(d2) && len(d1) == len(ds)
 			for k := 0; okc && k < len(d1); k++ {
 				if d1[k].line != ds[k].line || d2[k].line != ds[k].line+3 {
